@@ -167,8 +167,8 @@ def group_eq(B, A, R, S, k):
     return fips186.pmul(B, 8 * S) == fips186.padd(fips186.pmul(R, 8), fips186.pmul(A, 8 * k))
 
 
-def verify_ok(c, B, A, Aenc, ctx, phflag, PHM, sig):
-    """5.1.7 / 5.2.7 for the public key A (encoding Aenc), context ctx, flag phflag and (pre-hashed) message PHM:
+def verify_ok(c, B, A, ctx, phflag, PHM, sig):
+    """5.1.7 / 5.2.7 for the public key A (a group element; its encoding ENC(A) enters the hash), context ctx, flag phflag and (pre-hashed) message PHM:
     1. the signature is two b/8-octet halves; the first decodes as a point R, the second as an integer S in {0, ..., L-1}
     2. k = H(dom(F, C) || R || A || PH(M)) interpreted as a little-endian integer (reduction mod L does not change [k]A'
        up to the cofactor and is what 5.1.6 / 5.2.6 do on the signing side)
@@ -182,20 +182,20 @@ def verify_ok(c, B, A, Aenc, ctx, phflag, PHM, sig):
     S = le(sig[b:])
     if S >= order(c):
         return False
-    k = le(H(c, dom(c, phflag, ctx) + Renc + Aenc + PHM)) % order(c)
+    k = le(H(c, dom(c, phflag, ctx) + Renc + enc(c, A) + PHM)) % order(c)
     return group_eq(B, A, dec(c, Renc), S, k)
 
 
 # ---------------------------------------------------------------- signing, 5.1.6 / 5.2.6
 
-def sign(c, B, s, pfx, Aenc, ctx, phflag, PHM):
+def sign(c, B, s, pfx, A, ctx, phflag, PHM):
     """1. (s, prefix) from the private key   2. r = H(dom || prefix || PH(M)) mod L   3. R = ENC([r]B)
     4. k = H(dom || R || A || PH(M)) mod L   5. S = (r + k * s) mod L   6. R || little-endian b/8-octet encoding of S"""
     L = order(c)
     d = dom(c, phflag, ctx)
     r = le(H(c, d + pfx + PHM)) % L
     Renc = enc(c, fips186.pmul(B, r))
-    k = le(H(c, d + Renc + Aenc + PHM)) % L
+    k = le(H(c, d + Renc + enc(c, A) + PHM)) % L
     S = (r + k * s) % L
     return Renc + i2le(S, blen(c))
 
